@@ -2,7 +2,7 @@
 # seedsweep.sh "<props>" "<seeds>" [tier]   run the checks over several VERIF_SEED values; print what is not clean
 # evidence and replays go to a scratch directory (VERIF_OUT_DIR) so that committed evidence is not overwritten
 cd "$(dirname "$0")/.."
-props=${1:-"C01 C03 C04 C06 C07 C08 C10 C11 C12 C13 C14 C15 C17 C18 C19"}
+props=${1:-"C01 C02 C03 C04 C05 C06 C07 C08 C10 C11 C12 C13 C14 C15 C16 C17 C18 C19"}
 seeds=${2:-"1 2 3 4 5"}
 tier=${3:-quick}
 out=${SWEEP_OUT:-/tmp/sweep_out}
